@@ -1,6 +1,7 @@
 import Frp.Model.Backoff
 import Frp.Model.Watchdog
 import Frp.Model.Reconnect
+import Frp.Model.Dispatch
 import Frp.Props.C14Heal
 /-
   C14 — Dead peers are detected and tunnels heal themselves (partial: wall-clock behaviour and
@@ -16,6 +17,11 @@ import Frp.Props.C14Heal
   Parts D, E (Frp/Props/C14Heal.lean): the end of a server session releases everything the session
           registered, for every interleaving, registrations in flight included; a (re-)login registers
           the configuration in force when it succeeds, for every history of reloads and outages.
+  Part F: the client's dispatcher in front of its watchdog (pkg/msg/handler.go, client/control.go
+          registerMsgHandlers / handleReqWorkConn): with ReqWorkConn handled through AsyncHandler the
+          read loop is never occupied, the watchdog sees every Pong when it is sent, a server that
+          keeps answering is never torn down whatever work connections sit idle; with a plain handler
+          one idle work connection starves the watchdog (theorem + witness); tie to the source.
 -/
 namespace Frp
 namespace C14
@@ -916,6 +922,417 @@ example :
     r1.2.lo = 2 * second ∧ r1.2.hi = 2200 * milli ∧ r2.2.lo = 4200 * milli ∧ r2.2.hi = 4620 * milli := by decide
 
 end PartC
+
+section PartF
+open Dispatch
+
+/-! ## Part F — the dispatcher in front of the client watchdog (pkg/msg/handler.go, client/control.go) -/
+
+theorem wrun_append (c : Watchdog.Cfg) : ∀ (a b : List (Nat × Watchdog.Ev)) (s : Watchdog.St),
+    Watchdog.run c s (a ++ b) = Watchdog.run c (Watchdog.run c s a) b := by
+  intro a
+  induction a with
+  | nil => intro b s; rfl
+  | cons x xs ih => intro b s; obtain ⟨t, e⟩ := x; simp only [List.cons_append, Watchdog.run]; exact ih b _
+
+theorem drun_append (c : Dispatch.Cfg) : ∀ (a b : List (Nat × Lbl)) (s : Dispatch.St),
+    Dispatch.run c s (a ++ b) = Dispatch.run c (Dispatch.run c s a) b := by
+  intro a
+  induction a with
+  | nil => intro b s; rfl
+  | cons x xs ih => intro b s; obtain ⟨t, l⟩ := x; simp only [List.cons_append, Dispatch.run]; exact ih b _
+
+theorem run_reads (c : Dispatch.Cfg) (t : Nat) : ∀ (n : Nat) (s : Dispatch.St),
+    Dispatch.run c s (List.replicate n (t, Lbl.read)) = reads c t n s := by
+  intro n
+  induction n with
+  | zero => intro s; rfl
+  | succ n ih => intro s; simp only [List.replicate, Dispatch.run, reads]; exact ih _
+
+/-- the prompt run is one of the interleavings of the small-step model -/
+theorem erun_is_run (c : Dispatch.Cfg) : ∀ (ls : List (Nat × Lbl)) (s : Dispatch.St),
+    erun c s ls = Dispatch.run c s (eager c s ls) := by
+  intro ls
+  induction ls with
+  | nil => intro s; rfl
+  | cons x xs ih =>
+    intro s
+    obtain ⟨t, l⟩ := x
+    simp only [erun, eager, Dispatch.run]
+    rw [drun_append, run_reads]
+    exact ih _
+
+theorem dstep_closed (c : Dispatch.Cfg) (s : Dispatch.St) (t : Nat) (l : Lbl) (h : s.wd.closed.isSome = true) :
+    Dispatch.step c s t l = s := by
+  simp only [Dispatch.step, h, if_true]
+
+
+theorem dstep_send (c : Dispatch.Cfg) (s : Dispatch.St) (t : Nat) (m : Msg) (h : s.wd.closed.isSome = false) :
+    Dispatch.step c s t (.send m) = { s with inbox := s.inbox ++ [m] } := by
+  simp only [Dispatch.step, h, Bool.false_eq_true, if_false]
+
+theorem dstep_check (c : Dispatch.Cfg) (s : Dispatch.St) (t : Nat) (h : s.wd.closed.isSome = false) :
+    Dispatch.step c s t .check = { s with wd := Watchdog.step c.wd s.wd t .check } := by
+  simp only [Dispatch.step, h, Bool.false_eq_true, if_false]
+
+theorem dstep_release (c : Dispatch.Cfg) (s : Dispatch.St) (t w : Nat) (h : s.wd.closed.isSome = false) :
+    Dispatch.step c s t (.release w) =
+      { s with reader := if s.reader = .waiting w then .idle else s.reader, flying := s.flying.filter (· != w) } := by
+  simp only [Dispatch.step, h, Bool.false_eq_true, if_false]
+
+theorem dstep_read_cons (c : Dispatch.Cfg) (s : Dispatch.St) (t : Nat) (m : Msg) (rest : List Msg)
+    (h : s.wd.closed.isSome = false) (hr : s.reader = .idle) (hi : s.inbox = m :: rest) :
+    Dispatch.step c s t .read = handle c { s with inbox := rest } t m := by
+  simp only [Dispatch.step, h, Bool.false_eq_true, if_false, hr, hi]
+
+theorem dstep_read_nil (c : Dispatch.Cfg) (s : Dispatch.St) (t : Nat) (hi : s.inbox = []) :
+    Dispatch.step c s t .read = s := by
+  cases hr : s.reader <;> simp [Dispatch.step, hr, hi]
+
+theorem dstep_read_waiting (c : Dispatch.Cfg) (s : Dispatch.St) (t w : Nat) (hr : s.reader = .waiting w) :
+    Dispatch.step c s t .read = s := by
+  simp only [Dispatch.step, hr]
+  split <;> rfl
+
+theorem isSome_false_of {α : Type} {o : Option α} (h : ¬ o.isSome = true) : o.isSome = false := by
+  simpa using h
+
+theorem handle_wd_reqWork (c : Dispatch.Cfg) (s : Dispatch.St) (t : Nat) : (handle c s t .reqWork).wd = s.wd := by
+  simp only [handle]; split <;> rfl
+
+theorem handle_inbox (c : Dispatch.Cfg) (s : Dispatch.St) (t : Nat) (m : Msg) : (handle c s t m).inbox = s.inbox := by
+  cases m with
+  | pong v => rfl
+  | other => rfl
+  | reqWork => simp only [handle]; split <;> rfl
+
+/-! ### every interleaving: the watchdog sees exactly the Pongs that reach `handlePong` -/
+
+theorem wstep_check_last (c : Watchdog.Cfg) (s : Watchdog.St) (t : Nat) :
+    (Watchdog.step c s t .check).last = s.last := by
+  simp only [Watchdog.step]
+  split
+  · rfl
+  · split <;> rfl
+
+/-- **The watchdog state on any schedule is the bare watchdog run on the delivered heartbeats.** -/
+theorem delivered_sound (c : Dispatch.Cfg) : ∀ (ls : List (Nat × Lbl)) (s : Dispatch.St),
+    (Dispatch.run c s ls).wd = Watchdog.run c.wd s.wd (delivered c s ls) := by
+  intro ls
+  induction ls with
+  | nil => intro s; rfl
+  | cons x xs ih =>
+    intro s
+    obtain ⟨t, l⟩ := x
+    simp only [Dispatch.run, delivered]
+    rw [wrun_append, ih]
+    congr 1
+    by_cases hc : s.wd.closed.isSome = true
+    · rw [dstep_closed c s t l hc, run_closed c.wd _ _ hc]
+    · have hc' := isSome_false_of hc
+      cases l with
+      | send m => rw [dstep_send c s t m hc']; rfl
+      | check => rw [dstep_check c s t hc']; rfl
+      | release w => rw [dstep_release c s t w hc']; rfl
+      | read =>
+        cases hr : s.reader with
+        | waiting w => rw [dstep_read_waiting c s t w hr]; rfl
+        | idle =>
+          cases hi : s.inbox with
+          | nil => rw [dstep_read_nil c s t hi]; rfl
+          | cons m rest =>
+            rw [dstep_read_cons c s t m rest hc' hr hi]
+            cases m with
+            | pong v => rfl
+            | other => rfl
+            | reqWork => rw [handle_wd_reqWork]; rfl
+
+/-- **No false positive on any schedule, whatever the registration mode.**  If the session was
+    closed for liveness at `t`, the checker is on and more than `T` has passed since the last valid
+    Pong that reached `handlePong`. -/
+theorem close_sound_dispatch (c : Dispatch.Cfg) (ls : List (Nat × Lbl)) (s : Dispatch.St) (t : Nat)
+    (h0 : s.wd.closed = none) (h : (Dispatch.run c s ls).wd.closed = some (t, .timeout)) :
+    c.wd.enabled = true ∧ (Dispatch.run c s ls).wd.last + c.wd.T < t := by
+  rw [delivered_sound] at h ⊢
+  exact close_sound c.wd _ s.wd t h0 h
+
+/-! ### the code's registration: the read loop is never occupied -/
+
+theorem async_step_idle (c : Dispatch.Cfg) (ha : c.asyncReq = true) (s : Dispatch.St) (t : Nat) (l : Lbl)
+    (h : s.reader = .idle) : (Dispatch.step c s t l).reader = .idle := by
+  by_cases hc : s.wd.closed.isSome = true
+  · rw [dstep_closed c s t l hc]; exact h
+  · have hc' := isSome_false_of hc
+    cases l with
+    | send m => rw [dstep_send c s t m hc']; exact h
+    | check => rw [dstep_check c s t hc']; exact h
+    | release w => rw [dstep_release c s t w hc']; simp only [h]; split <;> rfl
+    | read =>
+      cases hi : s.inbox with
+      | nil => rw [dstep_read_nil c s t hi]; exact h
+      | cons m rest =>
+        rw [dstep_read_cons c s t m rest hc' h hi]
+        cases m with
+        | pong v => exact h
+        | other => exact h
+        | reqWork => simp only [handle, ha, if_true]; exact h
+
+/-- **With ReqWorkConn registered through `AsyncHandler` the read loop is never inside a handler
+    that waits for the peer** — on every schedule, however many work connections sit idle. -/
+theorem async_reader_idle (c : Dispatch.Cfg) (ha : c.asyncReq = true) : ∀ (ls : List (Nat × Lbl)) (s : Dispatch.St),
+    s.reader = .idle → (Dispatch.run c s ls).reader = .idle := by
+  intro ls
+  induction ls with
+  | nil => intro s h; exact h
+  | cons x xs ih => intro s h; obtain ⟨t, l⟩ := x; exact ih _ (async_step_idle c ha s t l h)
+
+/-- … so a `read` always makes progress: the oldest unread message is consumed -/
+theorem async_read_progress (c : Dispatch.Cfg) (s : Dispatch.St) (t : Nat) (m : Msg) (rest : List Msg)
+    (hr : s.reader = .idle) (h0 : s.wd.closed = none) (hi : s.inbox = m :: rest) :
+    (Dispatch.step c s t .read).inbox = rest := by
+  rw [dstep_read_cons c s t m rest (by rw [h0]; rfl) hr hi, handle_inbox]
+
+/-- the read loop waits in `ReadMsg` and has nothing unread -/
+def Settled (s : Dispatch.St) : Prop := s.reader = .idle ∧ s.inbox = []
+
+theorem proj_cons (t : Nat) (l : Lbl) (ls : List (Nat × Lbl)) : proj ((t, l) :: ls) = proj [(t, l)] ++ proj ls := by
+  cases l with
+  | send m => cases m <;> rfl
+  | read => rfl
+  | release w => rfl
+  | check => rfl
+
+theorem settle_nil (c : Dispatch.Cfg) (t : Nat) (s : Dispatch.St) (h : s.inbox = []) : settle c t s = s := by
+  simp only [settle, h, List.length_nil, reads]
+
+theorem estep_async (c : Dispatch.Cfg) (ha : c.asyncReq = true) (s : Dispatch.St) (t : Nat) (l : Lbl)
+    (hs : Settled s) :
+    Settled (settle c t (Dispatch.step c s t l)) ∧
+      (settle c t (Dispatch.step c s t l)).wd = Watchdog.run c.wd s.wd (proj [(t, l)]) := by
+  obtain ⟨hr, hi⟩ := hs
+  by_cases hc : s.wd.closed.isSome = true
+  · rw [dstep_closed c s t l hc, settle_nil c t s hi, run_closed c.wd _ _ hc]
+    exact ⟨⟨hr, hi⟩, rfl⟩
+  · have hc' := isSome_false_of hc
+    cases l with
+    | read =>
+      rw [dstep_read_nil c s t hi, settle_nil c t s hi]
+      exact ⟨⟨hr, hi⟩, rfl⟩
+    | release w =>
+      rw [dstep_release c s t w hc']
+      simp only [settle, hi, List.length_nil, reads]
+      refine ⟨⟨?_, rfl⟩, rfl⟩
+      simp only [hr]; split <;> rfl
+    | check =>
+      rw [dstep_check c s t hc']
+      simp only [settle, hi, List.length_nil, reads]
+      exact ⟨⟨hr, rfl⟩, rfl⟩
+    | send m =>
+      rw [dstep_send c s t m hc', hi, List.nil_append]
+      have h2 : settle c t { s with inbox := [m] } = handle c { s with inbox := [] } t m := by
+        simp only [settle, List.length_cons, List.length_nil, reads]
+        exact dstep_read_cons c _ t m [] hc' hr rfl
+      rw [h2]
+      cases m with
+      | pong v => exact ⟨⟨hr, rfl⟩, rfl⟩
+      | other => exact ⟨⟨hr, rfl⟩, rfl⟩
+      | reqWork =>
+        simp only [handle, ha, if_true]
+        exact ⟨⟨hr, rfl⟩, rfl⟩
+
+/-- **With the code's registration the dispatcher is transparent.**  For every history of what the
+    server sends (Pongs, ReqWorkConn, anything else), of work connections being used, closed or left
+    idle for ever, and of checker firings: a prompt read loop keeps the watchdog in exactly the state
+    of the bare watchdog model fed with the Pongs at the moments they were sent.  Work connections do
+    not appear on the right-hand side. -/
+theorem async_refines_watchdog (c : Dispatch.Cfg) (ha : c.asyncReq = true) :
+    ∀ (ls : List (Nat × Lbl)) (s : Dispatch.St), Settled s →
+      Settled (erun c s ls) ∧ (erun c s ls).wd = Watchdog.run c.wd s.wd (proj ls) := by
+  intro ls
+  induction ls with
+  | nil => intro s hs; exact ⟨hs, rfl⟩
+  | cons x xs ih =>
+    intro s hs
+    obtain ⟨t, l⟩ := x
+    obtain ⟨h1, h2⟩ := estep_async c ha s t l hs
+    obtain ⟨h3, h4⟩ := ih _ h1
+    simp only [erun]
+    refine ⟨h3, ?_⟩
+    rw [proj_cons t l xs, wrun_append, h4, h2]
+
+/-- **A server that keeps answering is never torn down, whatever work connections are idle.**  With
+    ReqWorkConn handled asynchronously: if the Pongs the server sends are valid and no event is later
+    than `I ≤ T` after the most recent one (`fed`, as in `alive_of_fed`), the session stays open for
+    the whole history — any number of ReqWorkConn, none of them ever released, included. -/
+theorem fed_never_torn_down (c : Dispatch.Cfg) (ha : c.asyncReq = true) (I : Nat) (hI : I ≤ c.wd.T)
+    (ls : List (Nat × Lbl)) (s : Dispatch.St) (hs : Settled s) (h0 : s.wd.closed = none)
+    (hb : c.wd.closeOnBad = true → noBad (proj ls)) (hf : fed I s.wd.last (proj ls) = true) :
+    (erun c s ls).wd.closed = none := by
+  rw [(async_refines_watchdog c ha ls s hs).2]
+  exact alive_of_fed c.wd I hI _ _ h0 hb hf
+
+/-! ### a plain ReqWorkConn handler: an idle work connection starves the watchdog -/
+
+/-- the checks of a schedule -/
+def checksOf : List (Nat × Lbl) → List (Nat × Watchdog.Ev)
+  | [] => []
+  | (t, .check) :: ls => (t, .check) :: checksOf ls
+  | _ :: ls => checksOf ls
+
+theorem blocked_step (c : Dispatch.Cfg) (s : Dispatch.St) (t : Nat) (l : Lbl) (w : Nat)
+    (hr : s.reader = .waiting w) (hl : l ≠ .release w) :
+    (Dispatch.step c s t l).reader = .waiting w ∧ (Dispatch.step c s t l).wd.last = s.wd.last := by
+  by_cases hc : s.wd.closed.isSome = true
+  · rw [dstep_closed c s t l hc]; exact ⟨hr, rfl⟩
+  · have hc' := isSome_false_of hc
+    cases l with
+    | send m => rw [dstep_send c s t m hc']; exact ⟨hr, rfl⟩
+    | read => rw [dstep_read_waiting c s t w hr]; exact ⟨hr, rfl⟩
+    | check => rw [dstep_check c s t hc']; exact ⟨hr, wstep_check_last _ _ _⟩
+    | release w' =>
+      have hne : w ≠ w' := fun h => hl (by rw [h])
+      rw [dstep_release c s t w' hc']
+      refine ⟨?_, rfl⟩
+      simp only [hr, Reader.waiting.injEq, if_neg hne]
+
+/-- **Occupancy.**  While the read loop sits in a handler that waits on work connection `w` and
+    nothing happens on `w`, no schedule delivers anything: `lastPong` keeps its value, whatever the
+    server sends. -/
+theorem blocked_delivers_nothing (c : Dispatch.Cfg) (w : Nat) : ∀ (ls : List (Nat × Lbl)) (s : Dispatch.St),
+    s.reader = .waiting w → (∀ x ∈ ls, x.2 ≠ .release w) →
+      (Dispatch.run c s ls).reader = .waiting w ∧ (Dispatch.run c s ls).wd.last = s.wd.last ∧
+        delivered c s ls = checksOf ls := by
+  intro ls
+  induction ls with
+  | nil => intro s hr _; exact ⟨hr, rfl, rfl⟩
+  | cons x xs ih =>
+    intro s hr hn
+    obtain ⟨t, l⟩ := x
+    obtain ⟨h1, h2⟩ := blocked_step c s t l w hr (hn (t, l) List.mem_cons_self)
+    obtain ⟨h3, h4, h5⟩ := ih _ h1 (fun y hy => hn y (List.mem_cons_of_mem _ hy))
+    simp only [Dispatch.run, delivered]
+    refine ⟨h3, by rw [h4, h2], ?_⟩
+    rw [h5]
+    cases l with
+    | send m => simp only [checksOf, List.nil_append]
+    | release w' => simp only [checksOf, List.nil_append]
+    | check => simp only [checksOf, List.cons_append, List.nil_append]
+    | read => simp only [hr, checksOf, List.nil_append]
+
+theorem checksOf_silent (ls : List (Nat × Lbl)) : silent (checksOf ls) ∧ noBad (checksOf ls) := by
+  induction ls with
+  | nil => refine ⟨?_, ?_⟩ <;> intro x hx <;> cases hx
+  | cons y ys ih =>
+    obtain ⟨t, l⟩ := y
+    cases l with
+    | check =>
+      simp only [checksOf]
+      refine ⟨?_, ?_⟩
+      · intro x hx
+        rcases List.mem_cons.1 hx with h | h
+        · subst h; intro hh; cases hh
+        · exact ih.1 x h
+      · intro x hx
+        rcases List.mem_cons.1 hx with h | h
+        · subst h; intro hh; cases hh
+        · exact ih.2 x h
+    | send m => exact ih
+    | read => exact ih
+    | release w => exact ih
+
+/-- **The same session with a plain ReqWorkConn handler is torn down although the server answers.**
+    From any open state whose read loop waits on work connection `w`: if nothing happens on `w`, the
+    checker fires at least every `P` and the history reaches a check later than `lastPong + T`, the
+    session is closed for liveness within `(lastPong + T, lastPong + T + P]` — for EVERY sequence of
+    Pongs the server sends meanwhile. -/
+theorem inline_starves (c : Dispatch.Cfg) (P : Nat) (hen : c.wd.enabled = true) (w : Nat)
+    (ls : List (Nat × Lbl)) (s : Dispatch.St) (pc : Nat) (hr : s.reader = .waiting w)
+    (hn : ∀ x ∈ ls, x.2 ≠ .release w) (h0 : s.wd.closed = none)
+    (hreg : checksRegular P pc (checksOf ls) = true) (hpc : pc ≤ s.wd.last + c.wd.T)
+    (hex : ∃ x ∈ checksOf ls, x.2 = .check ∧ s.wd.last + c.wd.T < x.1) :
+    ∃ t, (Dispatch.run c s ls).wd.closed = some (t, .timeout) ∧
+      s.wd.last + c.wd.T < t ∧ t ≤ s.wd.last + c.wd.T + P := by
+  rw [delivered_sound, (blocked_delivers_nothing c w ls s hr hn).2.2]
+  obtain ⟨t, h1, _, h2, h3⟩ :=
+    detect c.wd P hen (checksOf ls) s.wd pc h0 (checksOf_silent ls).1 (fun _ => (checksOf_silent ls).2) hreg hpc hex
+  exact ⟨t, h1, h2, h3⟩
+
+/-- the demo in numbers (ms): interval 1 s, timeout 3 s, ONE work connection requested right after the
+    login and never used, a Pong every second -/
+def idlePoolHistory : List (Nat × Lbl) :=
+  [(10, .send (.pong true)), (50, .send .reqWork),
+   (1000, .check), (1010, .send (.pong true)), (2000, .check), (2010, .send (.pong true)),
+   (3000, .check), (3010, .send (.pong true)), (4000, .check), (4010, .send (.pong true)), (5000, .check)]
+
+/-- **Witness: the registration mode decides.**  On the same history — the server answers every ping
+    (`fed` holds with I = 1010 ≤ T = 3000) — the plain registration closes the session at the check of
+    t = 4000 with the four later Pongs unread, the code's registration keeps it open with
+    lastPong = 4010 and the work connection still idle; once the idle connection is used (`release`)
+    the plain variant's queue drains and lastPong jumps to that moment. -/
+theorem inline_starves_witness :
+    let wd := Watchdog.clientCfg 1 3 1000
+    let plain := erun { wd := wd, asyncReq := false } {} idlePoolHistory
+    let code := erun { wd := wd, asyncReq := true } {} idlePoolHistory
+    let used := erun { wd := wd, asyncReq := false } {} (idlePoolHistory.take 7 ++ [(3500, .release 0), (4000, .check)])
+    fed 1010 0 (proj idlePoolHistory) = true ∧
+    plain.wd.closed = some (4000, .timeout) ∧ plain.wd.last = 10 ∧ plain.inbox.length = 3 ∧
+    code.wd.closed = none ∧ code.wd.last = 4010 ∧ code.flying = [0] ∧ code.inbox = [] ∧
+    used.wd.closed = none ∧ used.wd.last = 3500 ∧ used.inbox = [] := by decide
+
+/-! ### tie to the source (translate/gen_sessfacts.go, regenerated on every run) -/
+
+/-- some client handler that waits for the peer runs inside the read loop: it is registered plainly
+    (or `AsyncHandler` does not spawn) and the read loop invokes handlers inline -/
+def codeClientBlocks : Bool :=
+  Gen.SessFacts.readLoopInline &&
+    Gen.SessFacts.clientHandlerWaits.any (fun h =>
+      h.2 && !((Gen.SessFacts.clientHandlers.lookup h.1).getD false && Gen.SessFacts.asyncSpawns))
+
+/-- the `asyncReq` parameter as the code has it -/
+def codeReqAsync : Bool := !codeClientBlocks
+
+/-- in the source as it is: handleReqWorkConn is the one client handler that waits for the peer, it is
+    registered through `msg.AsyncHandler`; Pong is handled by a handler that does not wait -/
+theorem code_client_dispatch :
+    codeReqAsync = true ∧ Gen.SessFacts.clientHandlerWaits.lookup "ReqWorkConn" = some true ∧
+      Gen.SessFacts.clientHandlerWaits.lookup "Pong" = some false ∧
+      Gen.SessFacts.clientHandlers.lookup "ReqWorkConn" = some true := by
+  decide +kernel
+
+/-- `fed_never_torn_down` for the registration found in the source and the client's watchdog
+    configuration -/
+theorem fed_never_torn_down_code (iv tmo : Int) (u I : Nat) (hI : I ≤ (Watchdog.clientCfg iv tmo u).T)
+    (ls : List (Nat × Lbl)) (s : Dispatch.St) (hs : Settled s) (h0 : s.wd.closed = none)
+    (hb : noBad (proj ls)) (hf : fed I s.wd.last (proj ls) = true) :
+    (erun { wd := Watchdog.clientCfg iv tmo u, asyncReq := codeReqAsync } s ls).wd.closed = none :=
+  fed_never_torn_down _ code_client_dispatch.1 I hI ls s hs h0 (fun _ => hb) hf
+
+/-! ### non-vacuity -/
+
+-- `fed_never_torn_down`: three requests on login, never used, Pongs every second for 6 s against T = 2 s
+example :
+    let c : Dispatch.Cfg := { wd := Watchdog.clientCfg 1 2 1000, asyncReq := true }
+    let ls : List (Nat × Lbl) :=
+      [(5, .send (.pong true)), (20, .send .reqWork), (20, .send .reqWork), (20, .send .reqWork),
+       (1000, .check), (1005, .send (.pong true)), (2000, .check), (2005, .send (.pong true)),
+       (3000, .check), (3005, .send (.pong true)), (4000, .check), (4005, .send (.pong true)),
+       (5000, .check), (5005, .send (.pong true)), (6000, .check)]
+    Settled ({} : Dispatch.St) ∧ fed 2000 0 (proj ls) = true ∧ noBad (proj ls) ∧
+      (erun c {} ls).wd.closed = none ∧ (erun c {} ls).flying = [0, 1, 2] := by
+  refine ⟨⟨rfl, rfl⟩, by decide, ?_, by decide, by decide⟩
+  intro x hx
+  revert x
+  decide
+
+-- `inline_starves`: its hypotheses are met by the state after the request of `idlePoolHistory`
+example :
+    let c : Dispatch.Cfg := { wd := Watchdog.clientCfg 1 3 1000, asyncReq := false }
+    let s := erun c {} (idlePoolHistory.take 2)
+    let ls := idlePoolHistory.drop 2
+    s.reader = .waiting 0 ∧ s.wd.closed = none ∧ s.wd.last = 10 ∧ checksRegular 1000 0 (checksOf ls) = true ∧
+      (Dispatch.run c s ls).wd.closed = some (4000, .timeout) := by decide
+
+end PartF
 
 end C14
 end Frp
